@@ -860,6 +860,20 @@ func genRegistry(r *Rng, n int, tier string) []Case {
 				ops = append(ops, fmt.Sprintf("swap resume=%s", b01(r.Chance(70))))
 			default:
 				ops = append(ops, fmt.Sprintf("reopen resume=%s", b01(r.Chance(75))))
+				if r.Chance(50) {
+					// a burst of writes to the resume database right after the restart: the pages the loaded records
+					// were read from are freed and reused while the loaded torrents live on
+					for w := r.Range(6, 12); w > 0; w-- {
+						switch r.Intn(3) {
+						case 0:
+							ops = append(ops, fmt.Sprintf("addtracker t=%d url=u%d", ref(), r.Range(1, 7)))
+						case 1:
+							ops = append(ops, fmt.Sprintf("bump t=%d dl=%d ul=%d wa=0 se=1", ref(), r.Range(1, 1<<30), r.Range(1, 1<<20)), "flush")
+						default:
+							ops = append(ops, genAdd())
+						}
+					}
+				}
 			}
 		}
 		if r.Chance(60) {
